@@ -534,7 +534,7 @@ REGISTRY["C09"]["engines"] = list(REGISTRY["C09"]["engines"]) + [engine_khist.ru
 REGISTRY["C09"]["rule"] += " || " + HIST_RULE
 for _p in ("C09", "C14", "C17", "C16", "C10", "C13", "C08", "C04", "C11", "C18", "C01", "C07", "C03", "C02", "C15"):
     REGISTRY[_p]["engines"] = list(REGISTRY[_p]["engines"]) + [scenarios.run]
-    REGISTRY[_p]["rule"] += " || hand-written scenarios without the controller (harness/scenarios.py): failing calls that leave nodes running followed by another failing call; a node calling another DAG at run time; the first awaits of an AsyncDAG started together; a failing async node with a running sibling; concurrent builds / calls under a tiny switch interval; a debug node inside a deactivated nested DAG; a wide DAG whose limit exceeds any default pool size; setup nodes returning builtin containers (object identity across executions); concurrent executors of one DAG writing their own cache files; a chain of 700 dependent calls; setup nodes inside a flagged nested DAG; a nested debug node in a restricted run; the setup results both flavours record; caching run and restart inside one event loop; a failing node of a hand-built DAG (no call location); embedding a DAG that is already set up; indexed parts that do not exist at run time; `v += w` on a default / a setup result"
+    REGISTRY[_p]["rule"] += " || hand-written scenarios without the controller (harness/scenarios.py): failing calls that leave nodes running followed by another failing call; a node calling another DAG at run time; the first awaits of an AsyncDAG started together; a failing async node with a running sibling; concurrent builds / calls under a tiny switch interval; a debug node inside a deactivated nested DAG; a wide DAG whose limit exceeds any default pool size; setup nodes returning builtin containers (object identity across executions); concurrent executors of one DAG writing their own cache files; a chain of 700 dependent calls; setup nodes inside a flagged nested DAG; a nested debug node in a restricted run; the setup results both flavours record; caching run and restart inside one event loop; a failing node of a hand-built DAG (no call location); embedding a DAG that is already set up; indexed parts that do not exist at run time; `v += w` on a default / a setup result; empty container returns and twz_unpack_to over unpack_to; operator nodes and their resource; two thread nodes finishing microseconds apart"
 
 REGISTRY["C02"]["engines"] = [engine_ksched, engine_kvalue.run, scenarios.run]
 REGISTRY["C02"]["rule"] = SCHED_RULE + " || " + VALUE_RULE
